@@ -407,7 +407,7 @@ TX_ASM = ["pre-state: arbitrary encoder state within the invariant its producers
 TX_OUT = ["blocks with more than one group / more than 3 selectors", "delta runs longer than 3 steps (same two-bit step repeated)", "that encode()/generate_prefix_code() establish the pre-state (assign_opt_*, dummy_table_*, mtf_* cover parts)",
           "agreement with libbz2 itself (not encodable); the inspector is written from the format"]
 def tx_ob(name, tier, part, defs, to, bounds, wit, loops45):
-    add(name, "h_transmit.c", "h_transmit", {"C02": tier, "C01": tier}, defines=["-DPART=%d" % part] + defs,
+    add(name, "h_transmit.c", "h_transmit", {"C02": tier, "C01": "thorough"}, defines=["-DPART=%d" % part] + defs,   # C01's quick tier stays short; the same queries run in C02's quick tier
         cbmc=["--unwind", "52", "--unwindset", "transmit.3:6,transmit.4:%d,transmit.5:%d,transmit.6:6,transmit.7:8,transmit.9:3" % (loops45, loops45)],
         backend="kissat", timeout=to, mem_gb=6, extra_src=["crctab.c"], shrink="encoder_bucket",
         functions=["src/encode.c:transmit (PUTBIT/SEND/DUMP macros)"], witnesses=["inspected"] + wit,
